@@ -3628,10 +3628,24 @@ async def _helper_rename_inbox(inbox: Mailbox, new_name: str) -> None:
         except KeyError:
             continue
 
+        # The internal date of a message is the mtime of its file: it moves
+        # with the message (like COPY and MOVE do it.)
+        #
+        try:
+            mtime = await aiofiles.os.path.getmtime(
+                mbox_msg_path(inbox.mailbox, key)
+            )
+        except OSError:
+            mtime = None
+
         uids.append(new_mbox.next_uid)
         new_mbox.next_uid += 1
         new_msg_key = int(new_mbox.mailbox.add(msg))
         new_msg_keys.append(new_msg_key)
+        if mtime is not None:
+            await utime(
+                mbox_msg_path(new_mbox.mailbox, new_msg_key), (mtime, mtime)
+            )
 
         for seq in inbox.sequences.keys():
             if key in inbox.sequences[seq]:
